@@ -366,7 +366,7 @@ private:
                                 {
                                     first = false;
                                 }
-                                sink_.append(it->second.data(), it->second.length());
+                                write_column_name(it->second);
                             }
                         }
                         sink_.append(line_delimiter_.data(), line_delimiter_.length());
@@ -401,7 +401,7 @@ private:
                             {
                                 sink_.push_back(field_delimiter_);
                             }
-                            sink_.append(it->second.data(), it->second.length());
+                            write_column_name(it->second);
                             first = false;
                         }
                     }
@@ -650,7 +650,7 @@ private:
                                 {
                                     sink_.push_back(field_delimiter_);
                                 }
-                                sink_.append(it->second.data(), it->second.length());
+                                write_column_name(it->second);
                                 ++col;
                             }
                         }
@@ -712,7 +712,7 @@ private:
                                 {
                                     sink_.push_back(field_delimiter_);
                                 }
-                                sink_.append(it->second.data(), it->second.length());
+                                write_column_name(it->second);
                                 ++col;
                             }
                         }
@@ -1345,6 +1345,14 @@ private:
         }
         ++stack_.back().count_;
         JSONCONS_VISITOR_RETURN;
+    }
+
+    // a column name is a field of the header record: quoted and escaped like any other string field
+    void write_column_name(const string_type& name)
+    {
+        string_type field(alloc_);
+        write_string_value(string_view_type(name.data(), name.size()), field);
+        sink_.append(field.data(), field.size());
     }
 
     void write_string_value(const string_view_type& value, string_type& str)
